@@ -55,7 +55,7 @@ func checkIntersect(h []ival, lo, hi int) (kind, detail string) {
 		first := true
 		for e := range m.Entries() {
 			if e.Start > e.End {
-				return "intersect.entries-order", fmt.Sprintf("after insert #%d entry [%d,%d] has start>end", n, e.Start, e.End)
+				return "intersect.entry-start-after-end", fmt.Sprintf("after insert #%d entry [%d,%d] has start>end", n, e.Start, e.End)
 			}
 			if !first && e.Start <= prevEnd {
 				return "intersect.entries-order", fmt.Sprintf("after insert #%d entries not sorted/disjoint at [%d,%d] (prev end %d)", n, e.Start, e.End, prevEnd)
